@@ -53,6 +53,9 @@ class State:
         self.probe_idx = 0
         self.repeat = 1
         self.dct = {}
+        self.inject_points = 2     # at most this many suspension points per program get an injection sweep
+        self.inject_max = 120      # at most this many injected faults per sweep (stride over the line points)
+        self.inject_phase = 0
 
     def bump(self, k, n=1):
         self.stats[k] = self.stats.get(k, 0) + n
@@ -245,6 +248,83 @@ def retention_check(do_extract, tracked, where, compare_equal=True):
             mod = getattr(type(ref), "__module__", "") or ""
             if mod.startswith("stackscope"):
                 add_obs("pure.retained_by_stackscope_object", where, referrer=type(ref).__name__, manager=m.k)
+
+
+class Boom(Exception):
+    pass
+
+
+def _tracer(state, k):
+    """sys.settrace function raising Boom at the k-th line event executed inside the trickery analysis."""
+    def tracer(frame, event, arg):
+        mod = frame.f_globals.get("__name__", "")
+        if not mod.startswith("stackscope._lowlevel"):
+            return None
+        if frame.f_code.co_name in ("contexts_active_in_frame", "_check_trickery_available",
+                                    "_contexts_active_by_referents", "set_trickery_enabled"):
+            return None
+
+        def local(frame, event, arg):
+            if event == "line":
+                state["n"] += 1
+                if state["n"] == k:
+                    state["fired"] = [frame.f_code.co_name, frame.f_lineno]
+                    raise Boom("injected at line event %d" % k)
+            return local
+        return local
+    return tracer
+
+
+def injection_sweep(frame, obj, nxt, where):
+    """C20: raise at (a stride of) every point inside the trickery analysis of this very frame state.
+    contexts_active_in_frame must never raise; with an InspectionWarning the result must still be a sound
+    ordered over-approximation; without one (the interpreter absorbed the exception) it must be exact."""
+    state = {"n": 0, "fired": None}
+    sys.settrace(_tracer(state, -1))
+    try:
+        with warnings.catch_warnings():
+            warnings.simplefilter("ignore")
+            contexts_active_in_frame(frame, obj, nxt)
+    finally:
+        sys.settrace(None)
+    total = state["n"]
+    S.bump("inject.line_points", total)
+    stride = max(1, total // S.inject_max)
+    start = 1 + (S.inject_phase % stride)
+    for k in range(start, total + 1, stride):
+        state = {"n": 0, "fired": None}
+        res = None
+        with warnings.catch_warnings(record=True) as w:
+            warnings.simplefilter("always")
+            sys.settrace(_tracer(state, k))
+            try:
+                res = contexts_active_in_frame(frame, obj, nxt)
+            except BaseException as ex:
+                add_obs("ref.raised_under_injected_fault", where, exc=repr(ex), k=k, at=state["fired"])
+            finally:
+                sys.settrace(None)
+        if state["fired"] is None or res is None:
+            continue
+        S.bump("inject.fired")
+        iw = [x for x in w if x.category.__name__ == "InspectionWarning"]
+        n_before = len(S.obs)
+        if iw:
+            S.bump("inject.warned_and_fell_back")
+            check_referents(res, where)
+        else:
+            S.bump("inject.absorbed")
+            exp = list(S.sh)
+            good = len(res) == len(exp) and all(
+                c.obj is m and c.is_async == m.is_async and bool(c.is_exiting) == ex
+                for c, (m, ex) in zip(res, exp))
+            if not good:
+                add_obs("ref.no_warning_but_not_exact_under_injected_fault", where, got=ctxs_summary(res),
+                        exp=shadow_summary())
+        for o in S.obs[n_before:]:
+            o["injected_at"] = state["fired"]
+            o["k"] = k
+        if len(S.obs) > 3:
+            return
 
 
 def note_warnings(w, where, pfx):
@@ -716,6 +796,15 @@ def observe_suspended(obj, kind, where):
         tracked = [m for m, _e in S.sh] + [obj, frame] + _stack_methods(root)
         retention_check(lambda: extract(obj), tracked, where)
         del tracked
+    if "inject" in S.modes and S.sh and S.inject_points > 0:
+        S.inject_points -= 1
+        try:
+            stk0 = extract(obj)
+            nxt0 = stk0.frames[1].pyframe if len(stk0.frames) > 1 else None
+            del stk0
+        except BaseException:
+            nxt0 = None
+        injection_sweep(frame, obj, nxt0, where)
     if "ref" in S.modes:
         S.bump("ref.checks")
         set_trickery_enabled(False)
@@ -753,10 +842,12 @@ def compile_program(prog):
     return r, src, ns
 
 
-def run_program(prog, modes, extract_at=None, repeat=1):
+def run_program(prog, modes, extract_at=None, repeat=1, inject=None):
     global S
     S = State()
     S.modes = tuple(modes)
+    if inject:
+        S.inject_points, S.inject_max, S.inject_phase = inject
     S.extract_at = None if extract_at is None else set(tuple(x) for x in extract_at)
     S.repeat = repeat
     S.dct = {"sub": {}, "kk": None}
@@ -816,7 +907,8 @@ def run_program(prog, modes, extract_at=None, repeat=1):
 def handle(req):
     op = req["op"]
     if op == "g1.run":
-        return run_program(req["prog"], req.get("modes", ["susp", "run", "meta"]), repeat=req.get("repeat", 1))
+        return run_program(req["prog"], req.get("modes", ["susp", "run", "meta"]), repeat=req.get("repeat", 1),
+                           inject=req.get("inject"))
     if op == "g1.batch":
         out = []
         for prog in req["progs"]:
